@@ -35,7 +35,7 @@ meta = {
         'demo_output': res['demo_line'],
     },
     'check': {
-        'command': './check %s --tier %s' % (pid, os.environ.get('TIER', 'quick')),
+        'command': './check %s --tier %s' % (os.environ.get('CHECK_ID', pid), os.environ.get('TIER', 'quick')),
         'exit_code': res['check_rc'],
         'caught': res['caught'],
         'wall_s': res['check_wall_s'],
